@@ -492,7 +492,6 @@ def solve_near(s, V, target, stats=None, rounds=8):
         drop = [i for i in remaining if str(lits[i]) in core]
         if not drop: break
         remaining -= set(drop)
-    if s.check() == z3.sat: return s.model()
     return None
 
 
@@ -613,9 +612,10 @@ class Explorer:
                 self.coverage_complete = True; break
             if r != z3.sat:
                 self.cover_unknown = True; break
+            m0 = self.cover.model()
             self.cover.push()
             m = solve_near(self.cover, self.V, self.defaults, self.stats)
-            inputs = self._model_inputs(m if m is not None else self.cover.model())
+            inputs = self._model_inputs(m if m is not None else m0)
             self.cover.pop()
         return npaths
 
@@ -632,8 +632,9 @@ class Explorer:
                 t = time.time(); r = s.check(); self.stats['solver_s'] += time.time() - t; self.stats['queries'] += 1
                 if r == z3.unsat: self.infeasible += 1; continue
                 if r != z3.sat: self.cover_unknown = True; continue
-                m = solve_near(s, self.V, near, self.stats) if near else s.model()
-                inputs = self._model_inputs(m if m is not None else s.model())
+                m0 = s.model()
+                m = solve_near(s, self.V, near, self.stats) if near else None
+                inputs = self._model_inputs(m if m is not None else m0)
             rec, info, dec = self._one(handle, inputs, npaths)
             npaths += 1
             if rec is None: self.cover_unknown = True; continue
